@@ -282,6 +282,11 @@ STATEMENTS = {
     'bad-params2': ('SELECT date, account, number WHERE number > %s AND currency = %s ORDER BY date, account, number', [10]),
     'bad-column': ('SELECT nosuch, account', None),
     'runtime-fail': ('SELECT balance, date_add(date, 99999999 * (year - 2018)) AS x', None),
+    'prices': ('SELECT date, currency, amount FROM #prices ORDER BY date, currency', None),
+    'prices-agg': ('SELECT currency, count(*) AS n, max(date) AS last FROM #prices GROUP BY currency ORDER BY currency', None),
+    'txns': ('SELECT date, flag, narration FROM #transactions WHERE flag = "*" ORDER BY date, narration', None),
+    'notes-events': ('SELECT type, description FROM #events ORDER BY 1, 2', None),
+    'accounts': ('SELECT account, open_date(account) AS o FROM #accounts ORDER BY account', None),
     'open-close-rows': ('SELECT date, narration, account, position, balance FROM OPEN ON 2019-07-01 CLOSE ON 2020-07-01 CLEAR', None),
     'close-count': ('SELECT year, count(*) AS n, sum(position) AS s FROM CLOSE ON 2020-03-01 GROUP BY year ORDER BY year', None),
     'balances': ('BALANCES AT cost FROM year = 2020', None),
@@ -295,7 +300,7 @@ PAIRS = [('bal2', 'bal1'), ('bal2', 'bal3'), ('bal3', 'subq-in'), ('units-bal', 
          ('param-a', 'param-b'), ('named', 'param-a'), ('open-close', 'close'), ('open-close', 'bal2'), ('balances', 'journal'), ('distinct', 'entries'),
          ('pivot', 'agg'), ('bal2', 'bal2'), ('close', 'bal1'), ('open-close', 'open-close-rows'), ('close', 'close-count'), ('open-close', 'open-close'), ('div', 'div-agg'), ('div-agg', 'bal2'),
          ('ctx-funcs', 'ctx-funcs'), ('ctx-funcs', 'ctx-agg'), ('balances', 'balances'),
-         ('journal', 'journal'), ('journal', 'journal-cost'),
+         ('journal', 'journal'), ('journal', 'journal-cost'), ('prices', 'prices-agg'), ('txns', 'txns'), ('notes-events', 'prices'), ('accounts', 'ctx-funcs'),
          ('bad-params', 'param-b'), ('bad-params2', 'named'), ('runtime-fail', 'bal2'), ('bad-column', 'agg'), ('bad-params', 'bad-params2')]
 
 
